@@ -614,12 +614,22 @@ func scenStaleRound(x *Ctx) {
 		return
 	}
 	x.Writes(2, l2, 3+r.Intn(3), time.Second)
-	x.Step("read at old leader %s, then release the held replies", l)
-	w := x.readsAsync(7, l, "LR", 1, 800*time.Millisecond, 0)
-	time.Sleep(time.Duration(2+r.Intn(10)) * time.Millisecond)
-	gate.Release()
-	w()
-	x.NT("released-after-read")
+	if r.Intn(3) == 0 {
+		x.Step("read at old leader %s, then release the held replies", l)
+		w := x.readsAsync(7, l, "LR", 1, 800*time.Millisecond, 0)
+		time.Sleep(time.Duration(2+r.Intn(10)) * time.Millisecond)
+		gate.Release()
+		w()
+		x.NT("released-after-read")
+	} else {
+		// the late replies reach the old leader first (whatever it concludes from them about "now"), the reads follow at once
+		x.Step("release the held replies, then read at old leader %s", l)
+		gate.Release()
+		time.Sleep(time.Duration(200+r.Intn(3000)) * time.Microsecond)
+		w := x.readsAsync(7, l, "LR", 3, 300*time.Millisecond, time.Millisecond)
+		w()
+		x.NT("released-before-read")
+	}
 	x.Step("heal")
 	x.C.Net.Heal()
 	x.finishDirected()
@@ -1597,3 +1607,74 @@ func scenHighTermRestart(x *Ctx) {
 }
 
 func init() { Registry["w2.hightermrestart"] = scenHighTermRestart }
+
+// ---------------------------------------------------------------- a rejection carrying a higher term arrives two terms late (C08 C02)
+
+// scenStaleReject: follower v has moved to term T2 and rejects the AppendEntries requests of the cut-off leader l
+// (term T1) with Term = T2; those replies are held. l learns about T2 from the new leader, catches up, and is
+// elected again in T3. Then the replies arrive: they name a term that is higher than the request's but lower
+// than l's current term. Nothing may happen - in particular l's term must not go back to T2.
+func scenStaleReject(x *Ctx) {
+	r := x.R
+	all, l, ok := x.startStatic(5)
+	if !ok {
+		return
+	}
+	x.Writes(1, l, 2, time.Second)
+	t1 := x.C.Node(l).R().Status().Term
+	rest := x.others(l)
+	v := pick(r, rest)
+	abc := minus(rest, []string{v})
+	gate := simnet.NewGate()
+	x.C.Net.AddRule(&simnet.Rule{Name: "hold-higher-term-replies-of-v", Gate: gate, Match: func(m *mon.Msg, reply bool) bool {
+		return reply && m.Kind == "AE" && m.From == l && m.To == v && m.Term == t1 && m.RTerm > m.Term
+	}})
+	x.Step("cut %s off from %v; it still reaches %s, which follows the leader the others elect", l, abc, v)
+	x.C.Net.Partition([]string{l}, abc)
+	l2 := x.C.WaitLeaderAmong(abc, 6*time.Second)
+	if l2 == "" {
+		x.Inconclusive("no second leader")
+		return
+	}
+	x.Writes(3, l2, 1+r.Intn(2), time.Second)
+	if !x.WaitFor(2*time.Second, func() bool { return gate.HeldCount() > 0 }) {
+		x.Inconclusive("no rejection with a higher term was held")
+		return
+	}
+	t2 := x.C.Node(l2).R().Status().Term
+	x.Step("%d rejections (term %d) of %s held; %s rejoins, catches up and is re-elected", gate.HeldCount(), t2, v, l)
+	x.C.Net.ClearLinks()
+	if !x.WaitFor(3*time.Second, func() bool {
+		a, b := x.C.Node(l).Sample(), x.C.Node(l2).Sample()
+		return a != nil && b != nil && b.State == "leader" && a.Term == b.Term && a.Commit >= b.Commit
+	}) {
+		x.Inconclusive("%s did not catch up", l)
+		return
+	}
+	quiet := x.C.Net.AddRule(&simnet.Rule{Name: "only-l-campaigns", Drop: true, Match: func(m *mon.Msg, reply bool) bool {
+		return !reply && m.Kind == "RV" && m.From != l
+	}})
+	x.split([]string{l2}, minus(all, []string{l2}))
+	if !x.WaitFor(10*time.Second, func() bool { s := x.C.Node(l).Sample(); return s != nil && s.State == "leader" && s.Term > t2 }) {
+		x.Inconclusive("%s was not re-elected", l)
+		return
+	}
+	x.C.Net.RemoveRule(quiet)
+	t3 := x.C.Node(l).R().Status().Term
+	x.Step("%s leads term %d; the held rejections (term %d) arrive", l, t3, t2)
+	gate.Release()
+	time.Sleep(time.Duration(5+r.Intn(20)) * time.Millisecond)
+	x.NT("higher-term-rejection-released-two-terms-late")
+	x.Writes(4, l, 2, 500*time.Millisecond)
+	if r.Intn(2) == 0 {
+		// the node's stored term and vote are what a restart goes by
+		x.C.Node(l).Crash("stalereject")
+		x.C.Node(l).WaitDown(time.Second)
+		x.C.Node(l).Restart()
+	}
+	x.Step("heal")
+	x.C.Net.Heal()
+	x.finishDirected()
+}
+
+func init() { Registry["w2.stalereject"] = scenStaleReject }
